@@ -247,15 +247,39 @@ def plan_C06(b, tier, seed):
                [B_pairing(b, e, seed, 60) for e in ("mnt4_753", "mnt6_753")]
     return [B_pairing(b, e, seed + k, 1500, 3000) for e in ("bls12_381", "bls12_377", "bn254", "bw6_761", "bw6_767", "mnt4_298", "mnt6_298", "mnt4_753", "mnt6_753", "bls12_381c") for k in range(2)]
 
+THREADS_Q = [1, 2, 3, 4, 7, 16]
+def plan_C14(b, tier, seed):
+    """b is the harness built with every `parallel` feature; each job replays / records inside rayon pools of the listed sizes and is judged by the
+    same specification as the serial build."""
+    th = THREADS_Q if tier == "quick" else [1, 2, 3, 4, 5, 6, 7, 8, 9, 12, 13, 16, 17, 33]
+    t = []
+    P = lambda cfg, mode, deg, maxn, w=4: (lambda: toy_replay(b, "poly", "MC_Poly", cfg, mode, workers=w, env_extra={"DEG": str(deg), "MAXN": str(maxn)}, threads=th,
+                                                               label="A:poly:%s:%s:deg%d:maxn%d:threads" % (cfg, mode, deg, maxn)))
+    t += [P("f97", "domain", 0, 32), P("f257", "domain", 0, 16), P("f17", "unary", 2, 8), P("f12289", "fftbig", 0, 128 if tier == "quick" else 512, 8), P("f5", "arith", 3, 4, 6)]
+    t += [lambda: toy_replay(b, "field", "MC_Field", "f13", "arith", workers=4, threads=th, label="A:field:f13:arith:threads"),
+          lambda: toy_replay(b, "curve", "MC_Curve", "sw13_1_0", "arith", workers=4, threads=th[:4], label="A:curve:sw13_1_0:arith:threads"),
+          lambda: toy_replay(b, "curve", "MC_Curve", "te13_1_7", "mul", workers=4, threads=th[:4], label="A:curve:te13_1_7:mul:threads"),
+          lambda: toy_replay(b, "msm", "MC_Msm", "sw13_1_4", "oneshot", workers=6, env_extra={"LEN": "0"}, emits_all=False, threads=th, label="A:msm:sw13_1_4:oneshot:threads"),
+          lambda: toy_replay(b, "msm", "MC_Msm", "sw13_1_4", "acc", workers=6, env_extra={"LEN": "3"}, emits_all=False, threads=th[:3], label="A:msm:sw13_1_4:acc:threads"),
+          lambda: toy_replay(b, "container", "MC_Container", "zoo", "all", workers=8, threads=[2, 5], label="A:container:zoo:threads"),
+          lambda: toy_replay(b, "mle", "MC_Mle", "f3", "unary", workers=4, env_extra={"NV": "2"}, threads=th[:4], label="A:mle:f3:unary:threads")]
+    for k, thr in enumerate(th):
+        t.append((lambda thr=thr, k=k: trace_validate(b, "pairing", "Trace_Pairing", "bls12_381", seed + k, 120, threads=thr, label="B:pairing:bls12_381:threads%d" % thr)))
+        t.append((lambda thr=thr, k=k: trace_validate(b, "field", "Trace_Field", "bls12_381_fr", seed + k, 800, threads=thr, label="B:field:bls12_381_fr:threads%d" % thr)))
+        t.append((lambda thr=thr, k=k: trace_validate(b, "curve", "Trace_Curve", "bls12_381_g1", seed + k, 300, rec_args=["--profile", "group"], threads=thr, label="B:curve:bls12_381_g1:threads%d" % thr)))
+    return t
+FEATURES = {"C14": ("parallel",)}
+
 LIT_CFGS = ["z1a", "z2b", "z4a", "z13a", "m127", "c25519", "g64", "z6c"]
 def plan_C20(b, tier, seed):
     hc = LIT_CFGS + [c + "h" for c in LIT_CFGS]
     jobs = literal_jobs(LIT_CFGS, hc)
     return [(lambda j=j: j) for j in jobs]
 
-PLANS = {"C06": plan_C06, "C20": plan_C20, "C18": plan_C18, "C17": plan_C17, "C05": plan_C05, "C09": plan_C09, "C10": plan_C10, "C11": plan_C11, "C19": plan_C19, "C07": plan_C07, "C08": plan_C08, "C03": plan_C03, "C04": plan_C04, "C12": plan_C12, "C01": plan_C01, "C02": plan_C02, "C15": plan_C15}
+PLANS = {"C14": plan_C14, "C06": plan_C06, "C20": plan_C20, "C18": plan_C18, "C17": plan_C17, "C05": plan_C05, "C09": plan_C09, "C10": plan_C10, "C11": plan_C11, "C19": plan_C19, "C07": plan_C07, "C08": plan_C08, "C03": plan_C03, "C04": plan_C04, "C12": plan_C12, "C01": plan_C01, "C02": plan_C02, "C15": plan_C15}
 
 RULES = {
+ "C14": "the harness is built a second time with the parallel feature of ark-ff / ark-ec / ark-poly / ark-serialize / ark-std; the SAME TLC-emitted transitions and recorded traces that decide C01/C03/C04/C05/C06/C07/C08/C17/C18 on the serial build are replayed inside rayon pools of 1, 2, 3, 4, 7, 16 threads (thorough: 1..9, 12, 13, 16, 17, 33) and judged by the same specification: FFT / IFFT of all domain kinds for every input length up to 32 and for sizes 32..128 (thorough 512; these pass the 128-element parallel-chunk threshold) incl. cosets, Lagrange coefficients, element tables, polynomial evaluation over domains, multiplication and division, batch inversion, sum of products, batch normalisation, scalar multiplication tables, MSM entry points and accumulators, multi-pairings, container / batched validity checks",
  "C06": "B: seeded programs on every pairing engine (BLS12-381 M-twist, BLS12-377 D-twist, BN254, BW6-761, BW6-767, MNT4-298/753, MNT6-298/753): registers of G1, G2, GT are loaded with known multiples of the generators (scalars 0, 1, 2, r-1, small, random), combined with add / neg / scalar multiplication, paired (single pairing, multi-pairing of 0,1,2,3,4,5,9 pairs, prepared inputs, Miller loop + final exponentiation, product of single pairings) and combined in GT (mul, inverse, power); after every step the set of registers equal to the written one, its identity-ness and - for GT - order-divides-r / Valid::check are logged and TLC requires the partition to be the partition of the discrete logarithms a*b. non-trivial = written register is not the identity",
  "C20": "A: for 8 moduli of the zoo (1, 2, 4, 6, 13 limbs; with / without spare bit; Mersenne 2^127-1, 2^255-19, Goldilocks), derived and hand-written configuration: TLC generates every literal sign x {decimal, 0x, 0X, 0o, 0O, 0b, 0B} x {0, 2 leading zeros} x 21 values (0, 1, 2, 10, 15, 16, 255, 2^32, 2^64-1, 2^64, 2^64+1, (p-1)/2, p-2, p-1, p, p+1, 2p, 2p+1, 2^(64N-1), (2^64N)/3, 2^(64N)-1) with the value it must denote; all ~800 literals per modulus are compiled as MontFp! / BigInt! constants and the constant's raw Montgomery limbs are compared with the run-time element of the same value; plus the derive macro's limb count, modulus limbs, R, R2, INV, bit size, two-adicity, generator and 2-adic root against their definitions",
  "C18": "A: a zoo of 44 composite types (all integer widths and signs, usize, bool, Option, Vec / VecDeque / LinkedList incl. nested, tuples, arrays, String, BigUint, BTreeSet, BTreeMap, Rc / Arc / Cow, the four derive shapes named / tuple / nested-tuple / generic, and the mode-pinning wrappers around the only mode-dependent leaf - points of a toy curve - alone, inside Vec and inside tuples): every value built from tiny leaf domains up to length 2 x both ambient modes: bytes, advertised size, exact-size buffer; a structured set of ~4700 byte strings per type (every payload of <= 3 bytes over an alphabet with ASCII, valid 2-byte UTF-8, lone continuation byte, 0xFF; behind every length prefix in {0..4, 2^16, 2^40, 2^62, 2^64-1}): error vs value, decoded value, bytes consumed; panics and aborts are violations",
@@ -286,6 +310,8 @@ NEEDS_CURVES = {"C06", "C16", "C02", "C12", "C04", "C13"}
 HOOK_COMMITS = ["b2d3621", "63ec7b9", "7c991e8"]
 NOT_APPLICABLE = {}
 META = {
+ "C14": {"text": "The specification has no notion of threads: every action's result is defined by the serial mathematical definition, so the thread count is an argument the result must not depend on. The parallel build is run inside explicit rayon pools of each size and its behaviour must be a behaviour of the same machines (exhaustive toy transitions + full-size traces). The parallel FFT splits whenever log n > log2(threads) and batch inversion chunks down to 1 element, so toy sizes already reach the splitting arithmetic; sizes up to 128/512 reach the 128-element chunk threshold of compute_powers and the degree-aware paths.",
+         "note": "rayon's scheduler is not modelled as interleavings (the parallel code is data-parallel over disjoint chunks; races would be a memory-safety question outside this technique). Pool sizes larger than the input are included (16 and 33 threads on inputs of 2..8 elements)."},
  "C06": {"text": "PairingMachine is the abstract bilinear group on discrete logarithms (e(a g1, b g2) = ab e(g1,g2), multi-pairing = sum); TLC validates traces of the real engines through equality patterns only, which is what bilinearity, additivity, non-degeneracy (log e(g1,g2) = 1), identity preservation, multi-pairing = product and prepared = unprepared mean observationally; every output is also checked to have order dividing r.",
          "note": "No toy pairing curves; the specification does not compute pairing values (a consistent different bilinear non-degenerate map would be accepted - it would be a valid pairing). MNT4/MNT6 with identity inputs is a recorded known finding."},
  "C20": {"text": "MC_Literal specifies the denotation of a literal (sign, radix prefix in either case, leading zeros, reduction modulo p with p - (|v| mod p) for negative values) and of the derive macro's constants; TLC generates the literal grid, `check` compiles it with the real proc-macros and const fns (gen_lit.rs is regenerated and the harness rebuilt when the grid changes) and the harness compares every constant with the value TLC computed and with the run-time element.",
